@@ -125,6 +125,7 @@ def _second_run(obs, spec, second, lab, built, ctl, backend_kind, storage, stora
         sink.close()
     o2.trace = vu.read_trace(obs_dir)[n_trace:]
     o2.events = ctl.events[n_events:]
+    split_foreign(o2, spec)
     obs.second = o2
 
 
@@ -177,6 +178,29 @@ def make_storage(kind: str, d: str):
 
 
 DEADLINES = {'controlled': 20.0, 'serial': 20.0, 'fork': 60.0, 'spawn': 150.0}
+
+
+def split_foreign(obs, spec: dict) -> None:
+    """Records about tasks that are not nodes of the spec at all (labtech ran something that is no parameter of any requested task)
+    are kept in raw_trace / raw_events - C03 judges them - and removed from the views the other oracles index by node name."""
+    known = {n['name'] for n in spec['nodes']}
+    obs.raw_trace, obs.raw_events = obs.trace, obs.events
+    named = ('S', 'R', 'E', 'X', 'K')
+    single = ('submit', 'yield', 'delivered', 'get_result', 'start')
+    foreign = {r[1] for r in obs.trace if r and r[0] in named and len(r) > 1 and r[1] not in known}
+    foreign |= {ev[1] for ev in obs.events if ev and ev[0] in single and len(ev) > 1 and ev[1] not in known}
+    obs.foreign = sorted(foreign)
+    if not foreign:
+        return
+    obs.trace = [r for r in obs.trace if not (r and r[0] in named and len(r) > 1 and r[1] in foreign)]
+    events = []
+    for ev in obs.events:
+        if ev and ev[0] in single and len(ev) > 1 and ev[1] in foreign:
+            continue
+        if ev and ev[0] in ('batch', 'release', 'remove', 'rest'):
+            ev = tuple([x for x in part if x not in foreign] if isinstance(part, list) else part for part in ev)
+        events.append(ev)
+    obs.events = events
 
 
 def execute_case(spec: dict, *, chooser: Optional[Chooser] = None, gated: bool = False, deadline_s: Optional[float] = None,
@@ -318,6 +342,7 @@ def execute_case(spec: dict, *, chooser: Optional[Chooser] = None, gated: bool =
         if obs.second is not None:
             obs.trace = obs.trace[:len(obs.trace) - len(obs.second.trace)] if obs.second.trace else obs.trace
             obs.events = obs.events[:len(obs.events) - len(obs.second.events)] if obs.second.events else obs.events
+        split_foreign(obs, spec)
         if runner is not None and hasattr(runner, 'real'):
             real = runner.real
             left = []
